@@ -35,29 +35,82 @@ def search(ctx):
         ctx.violations.append((p, True))
 
 
+def gen_sop(rng, tier):
+    """the composite operations of store.go with every position of the failing adapter call, alone and followed by the loss of the
+    connection (exhaustive: the operations make at most three calls)"""
+    for op in ("sop.ucreate", "sop.tcreate"):
+        for k in range(0, 7):
+            for loss in ("-", "loss"):
+                yield f"{op} {k} {loss}"
+
+
+def post_sop(ctx, ops, impl):
+    """decides the clause on the implementation's own output: success is reported only when everything is written, a failure of a
+    call is never reported as success, and after a failure nothing is left"""
+    want_subs = {"sop.ucreate": 2, "sop.tcreate": 1}
+    bad = []
+    for o, i in zip(ops, impl):
+        w = o.split(" ")
+        f = i.split(" ")
+        if i.startswith("inconsistent:"):
+            bad.append(([o], f"C18 [store-op] `{o}`: the operation returned neither what it created nor an error ({i}): the failure of an adapter "
+                             f"call is swallowed"))
+            continue
+        if len(f) != 4 or f[0] not in ("ok", "err"):
+            bad.append(([o], f"C18 [store-op] unexpected answer `{i}`"))
+            continue
+        kv = dict(x.split("=", 1) for x in f[1:])
+        calls = [c for c in kv["calls"].split(",") if c]
+        k = int(w[1])
+        failed = 0 < k <= len(calls)
+        if f[0] == "ok":
+            if failed:
+                bad.append(([o], f"C18 [store-op] call {k} ({calls[k - 1]}) failed and the operation reported success: the failure is swallowed (`{i}`)"))
+            elif kv["main"] != "1" or int(kv["subs"]) != want_subs[w[0]]:
+                bad.append(([o], f"C18 [store-op] success reported with main={kv['main']} subs={kv['subs']}"))
+        else:
+            if not failed:
+                bad.append(([o], f"C18 [store-op] failure reported although no call failed (`{i}`)"))
+            elif kv["main"] != "0" or kv["subs"] != "0":
+                if w[2] == "loss" and kv["main"] == "1" and kv["subs"] == "0" and k == 2:
+                    bad.append(([o], f"C18 [orphan-on-loss] the connection is lost at the second call of `{w[0]}`: the undoing call fails too and the "
+                                     f"record stays without its subscriptions (`{i}`)"))
+                else:
+                    bad.append(([o], f"C18 [store-op] the operation failed and left main={kv['main']} subs={kv['subs']} behind (`{i}`)"))
+    return bad
+
+
 PROP = dict(
     id="C18",
     level_text="The transaction skeleton of every transactional function of the MySQL and PostgreSQL adapters is REGENERATED from "
                "the source on every run (lexical-scope resolution of the error variable, classification of every return site and "
                "every statement on the transaction); a kernel-checked Lean theorem (decide over the complete regenerated table, "
                "lifted by wf_atomic) states that every return closes the BEGIN..COMMIT/ROLLBACK bracket and reports the failure, "
-               "and that no statement's error bypasses the variable the rollback handler tests.",
+               "and that no statement's error bypasses the variable the rollback handler tests. The operations store.go composes from "
+               "two adapter calls and an undoing third (Users.Create, Topics.Create: Model/StoreOps.lean, Props/C18s.lean): for every "
+               "position of a single failing call success is reported iff nothing failed, and after a failure nothing is left; tied to "
+               "the real mappers by the `sop` stream (every failing position, alone and followed by the loss of the connection).",
     level_note="PARTIAL: the extractor (lexical guards `if E != nil`, `E = <const>; return`, flow after `if E == nil {return}`) is "
                "trusted; the SQL statements' own effects are not interpreted (what 'full effect' means is the SQL text's); the "
                "context-deadline path relies on database/sql / pgx rolling back on cancel; MongoDB/RethinkDB adapters have no "
                "transactions; CreateDb/UpgradeDb (schema tools) are exempt.",
-    technique="T2: translator-regenerated transaction skeletons + Lean 4 theorem by decide over the complete table",
+    technique="T2: translator-regenerated transaction skeletons + Lean 4 theorem by decide over the complete table; T1 for the composite operations of store.go",
     translators=[tr_txskel],
-    modules=["TinodeVerif.Props.C18"],
-    theorems=[T + n for n in ["wf_atomic", "all_skeletons_wf", "operations_present", "tolerated_ok"]],
-    streams=[],
+    modules=["TinodeVerif.Props.C18", "TinodeVerif.Props.C18s"],
+    theorems=[T + n for n in ["wf_atomic", "all_skeletons_wf", "operations_present", "tolerated_ok", "user_success_is_complete", "user_failure_reported",
+                              "user_single_failure_leaves_nothing", "topic_success_is_complete", "topic_failure_reported",
+                              "topic_single_failure_leaves_nothing", "user_loss_leaves_orphan", "topic_loss_leaves_orphan"]],
+    streams=[dict(name="sop", pkg="main", gen=gen_sop, classify=lambda o, i: i.split(" ")[0] + ":" + i.split(" ")[1] if " " in i else i, post=post_sop)],
     extra=[search],
     seeds=dict(quick=1, thorough=1),
     exhaustive=dict(quick=True, thorough=True),
     rule="every function of server/db/mysql/adapter.go and server/db/postgres/adapter.go that begins a transaction (43 functions); "
-         "each return site and each statement on the transaction is an obligation of the regenerated table",
+         "each return site and each statement on the transaction is an obligation of the regenerated table; `sop`: store.Users.Create and "
+         "store.Topics.Create with the k-th adapter call failing, k = 0..6, alone and with every later call failing too (28 lines, exhaustive)",
     assumptions=["deferred closure semantics of Go; database/sql and pgx end the transaction on Commit (success or failure) and on context cancel"],
-    trusted=["translator/cmd/txskel (go/ast, lexical scope resolution)"],
+    trusted=["translator/cmd/txskel (go/ast, lexical scope resolution)",
+             "`sop` stream: the in-memory adapter of the harness (each adapter call takes effect as a whole or not at all: that each one is a "
+             "transaction is what the regenerated skeletons are about)"],
 )
 
 from ..pin import add_pin
